@@ -165,6 +165,18 @@ fn pub_inputs<B: Fld>(spec: &Spec, avals_hex: &[Vec<String>]) -> PubInputs<B> {
 
 fn ext_of(b: u8) -> FieldExtension { match b { 2 => FieldExtension::Quadratic, 3 => FieldExtension::Cubic, _ => FieldExtension::None } }
 
+/// (ce_blowup_factor, num_constraint_composition_columns) of the AIR described by `spec`; None when its own constructor refuses it
+fn air_params<B: Fld>(spec: &Spec, avals_hex: &[Vec<String>]) -> Option<(usize, usize)> {
+    let ti = if spec.aux_width > 0 { catch(|| TraceInfo::new_multi_segment(spec.width, spec.aux_width, spec.aux_rands, spec.n(), vec![])).ok()? } else { catch(|| TraceInfo::new(spec.width, spec.n())).ok()? };
+    let opts = ProofOptions::new(1, 128, 0, FieldExtension::None, 2, 0);
+    let pi = pub_inputs::<B>(spec, avals_hex);
+    let air = catch(AssertUnwindSafe(|| FamAir::<B>::new(ti, pi, opts))).ok()?;
+    Some((air.ce_blowup_factor(), air.context().num_constraint_composition_columns()))
+}
+fn air_params_dyn(fld: &str, spec: &Spec, avals_hex: &[Vec<String>]) -> Option<(usize, usize)> {
+    if fld == "f64" { air_params::<B64>(spec, avals_hex) } else { air_params::<B128>(spec, avals_hex) }
+}
+
 /// one honest proof; None when the library's prover refuses the parameters
 fn gen_one<B: Fld, H>(fld: &str, hsh: &str, spec: &Spec, o: [usize; 6]) -> Option<Base>
 where H: ElementHasher<BaseField = B> + Send + Sync {
@@ -475,9 +487,8 @@ fn mutations(b: &Base, r: &mut Rng, budget: usize, exhaustive_bits: bool, out: &
     }
     // the AIR needs a larger blowup than the proof claims (constraint degree above the claimed blowup)
     if let Case::V(mut c) = vcase(b, "pub:degree>blowup".into(), bytes.clone()) {
-        let need = (b.opts[1] as u32) + 2; c.spec.degs[0] = need; c.ceb = (need as usize).next_power_of_two().max(b.ceb);
-        c.ncols = 0; // recomputed below (ncols is irrelevant once Air::new panics)
-        out.push(Case::V(c));
+        let need = 2 * (b.opts[1] as u32) + 1; c.spec.degs[0] = need;
+        if let Some((ceb, ncols)) = air_params_dyn(&b.fld, &c.spec, &c.avals_hex) { c.ceb = ceb; c.ncols = ncols; out.push(Case::V(c)); }
     }
 }
 
@@ -525,6 +536,8 @@ fn component_cases(b: &Base, r: &mut Rng, out: &mut Vec<Case>) {
     let com = cut("commitments", "commitments");
     let nseg = if aw > 0 { 2 } else { 1 };
     for (s, l) in [(nseg, lay.nlayers), (nseg + 1, lay.nlayers), (nseg, lay.nlayers + 1), (0, 0), (nseg, 0), (255, 255), (1 << 20, 1), (1, 1 << 40), (nseg, usize::MAX)] {
+        // `num_fri_layers + 1` overflows only where overflow checks are compiled in: the model has debug semantics
+        if l == usize::MAX && !cfg!(debug_assertions) { continue; }
         out.push(Case::Line("commitments".into(), format!("C {} {} {} {}", dl, s, l, hex_bytes(&com))));
     }
     // draw_integers
@@ -593,7 +606,7 @@ fn run_f<H: ElementHasher, E: FieldElement<BaseField = H::BaseField>>(d: usize, 
     let rem = match catch(AssertUnwindSafe(|| f.parse_remainder::<E>())) { Err(_) => return "panic".into(), Ok(Err(_)) => return "err".into(), Ok(Ok(x)) => x };
     match catch(AssertUnwindSafe(|| f.parse_layers::<H, E>(d, ff))) {
         Err(_) => "panic".into(), Ok(Err(_)) => "err".into(),
-        Ok(Ok((qs, mps))) => format!("ok {} {} {}", np.trailing_zeros(), rem.len(), qs.iter().zip(mps.iter()).map(|(q, m)| format!("{}:{}", q.len(), m.depth)).collect::<Vec<_>>().join(",")),
+        Ok(Ok((qs, mps))) => format!("ok {} {} [{}]", np.trailing_zeros(), rem.len(), qs.iter().zip(mps.iter()).map(|(q, m)| format!("{}:{}", q.len(), m.depth)).collect::<Vec<_>>().join(",")),
     }
 }
 fn run_c<H: ElementHasher>(s: usize, l: usize, bytes: &[u8]) -> String {
@@ -747,6 +760,22 @@ fn parent(mode: &str, seed: u64, n: usize, corpus: &str) -> (Vec<String>, usize)
     (lines, restarts)
 }
 
+/// are the AIR-side parameters of a component-level case inside the documented domain of the function? (outside, the
+/// documented `# Panics` apply and a panic is not a finding)
+fn component_admissible(line: &str) -> bool {
+    let t: Vec<&str> = line.split(' ').collect();
+    let us = |i: usize| t[i].parse::<usize>().unwrap_or(usize::MAX);
+    let p2 = |x: usize| x.is_power_of_two();
+    match t[0] {
+        "O" => us(3) > 0 && us(5) > 0 && us(3) <= 255 && us(4) <= 255 && us(5) <= 255,
+        "Q" => p2(us(4)) && us(5) <= 255 && us(6) >= 1 && us(6) <= 255,
+        "F" => p2(us(4)) && p2(us(5)) && us(5) > 1 && us(5) <= 1 << 16,
+        "C" => us(3) < usize::MAX,
+        "D" => p2(us(2)),
+        _ => true,
+    }
+}
+
 fn falsify(seed: u64, n: usize, corpus: &str) {
     let (lines, restarts) = parent("falsify", seed, n, corpus);
     let cases = build_cases(seed, n, corpus);
@@ -769,6 +798,7 @@ fn falsify(seed: u64, n: usize, corpus: &str) {
             let variant = ["strict-air", "plain-air", "strict-air+proven-security"][k.min(2)];
             if r == "panic" {
                 if known { report(format!("panic in verify(): proof context differs from the AIR (Air::new cannot fail) [{}]", variant), "an error value", "panic".into()); }
+                else if let Some(Case::Line(_, l)) = cases.get(idx) { if component_admissible(l) { report(format!("panic [component, admissible parameters] class={}", class), "ok or an error value", "panic".into()); } }
                 else { report(format!("panic [{}] class={}", variant, class), "ok or an error value", "panic".into()); }
             } else if r == "abort" || r == "timeout" { report(format!("{} class={}", r, class), "ok or an error value", r.into()); }
         }
@@ -800,18 +830,27 @@ fn replay(name: &str, corpus: &str) {
         show("Lagrange frame of 1 element + one trace column removed, AIR with auxiliary segment but no Lagrange column", v(ba, splice(&m, t, &body[..body.len() - 2 * eb])));
     }
     if all || name == "fri-partitions" { for np in [64u8, 200] { let mut m = b.bytes.clone(); m[lay.get("fri.partitions").start] = np; show(&format!("fri num_partitions byte {}", np), v(b, m)); } }
-    if all || name == "trace-length" { for e in [33u8, 40, 62, 63] { let mut m = b.bytes.clone(); m[lay.get("ti.loglen").start] = e; show(&format!("trace length 2^{}", e), v(b, m)); } }
+    if all || name == "trace-length" {
+        // an AIR which accepts whatever length the proof claims (most AIRs do: `last_step = trace_length - 1`): plain FamAir
+        for e in [29u8, 31, 32, 33, 40, 62, 63] { let mut m = b.bytes.clone(); m[lay.get("ti.loglen").start] = e;
+            let r = if let Case::V(c) = vcase(b, "replay".into(), m) { dispatch!(c.fld.as_str(), c.hsh.as_str(), run_v(&c, false, false)) } else { unreachable!() };
+            show(&format!("trace length 2^{} (blowup {}), AIR without a fixed length", e, b.opts[1]), r); }
+    }
     if all || name == "fri-schedule" {
-        // options for which the folding schedule reaches a domain smaller than the folding factor: fold 16, remainder degree 0
-        for (f, r_) in [(16u8, 0u8), (8, 0), (16, 1)] { let mut m = b.bytes.clone(); m[lay.get("o.fold").start] = f; m[lay.get("o.rem").start] = r_; show(&format!("options fold={} rem={} (layers as in the proof)", f, r_), v(b, m.clone()));
-            // with the number of layers the options imply
-            let lde = b.spec.n() * b.opts[1] as usize; let mut d = lde; let mut k = 0; while d > (r_ as usize + 1) * b.opts[1] as usize { d /= f as usize; k += 1; }
-            let eb = 8 * (b.opts[3] as usize).max(1); let l2 = dissect(&m).unwrap(); let rp = l2.get("fri.remainder").pfx.unwrap().0; let a = l2.get("fri.nlayers").start + 1;
-            let mut layer = vec![]; layer.extend_from_slice(&((eb * f as usize) as u32).to_le_bytes()); layer.extend(std::iter::repeat(0u8).take(eb * f as usize)); layer.extend_from_slice(&2u32.to_le_bytes()); layer.extend_from_slice(&[1, 0]);
-            let mut m2 = m[..a].to_vec(); for _ in 0..k { m2.extend_from_slice(&layer); } m2.extend_from_slice(&m[rp..]); m2[a - 1] = k as u8;
-            // commitments: nseg + 1 + k + 1 digests
-            let l3 = dissect(&m2).unwrap(); let cs = l3.get("commitments"); let dl = digest_len(&b.hsh); let nb = vec![0u8; dl * (1 + 1 + k + 1)]; let m3 = splice(&m2, cs, &nb);
-            show(&format!("options fold={} rem={} with the {} layers they imply", f, r_, k), v(b, m3)); }
+        // options for which the folding schedule reaches a domain smaller than the folding factor, with the number of layers they imply
+        for base in bases.iter().filter(|x| x.spec.aux_width == 0 && x.fld == "f64" && x.hsh == "b3_256") {
+            let lay = dissect(&base.bytes).unwrap();
+            for (f, r_) in [(16u8, 0u8), (8, 0), (16, 1), (4, 0)] {
+                let mut m = base.bytes.clone(); m[lay.get("o.fold").start] = f; m[lay.get("o.rem").start] = r_;
+                let lde = base.spec.n() * base.opts[1] as usize; let mut d = lde; let mut k = 0; let mut sched = vec![d]; while d > (r_ as usize + 1) * base.opts[1] as usize { d /= f as usize; k += 1; sched.push(d); }
+                if *sched.last().unwrap() != 0 { continue; }
+                let eb = 8 * (base.opts[3] as usize).max(1); let l2 = dissect(&m).unwrap(); let rp = l2.get("fri.remainder").pfx.unwrap().0; let a = l2.get("fri.nlayers").start + 1;
+                let mut layer = vec![]; layer.extend_from_slice(&((eb * f as usize) as u32).to_le_bytes()); layer.extend(std::iter::repeat(0u8).take(eb * f as usize)); layer.extend_from_slice(&2u32.to_le_bytes()); layer.extend_from_slice(&[1, 0]);
+                let mut m2 = m[..a].to_vec(); for _ in 0..k { m2.extend_from_slice(&layer); } m2.extend_from_slice(&m[rp..]); m2[a - 1] = k as u8;
+                let l3 = dissect(&m2).unwrap(); let cs = l3.get("commitments"); let dl = digest_len(&base.hsh); let nb = vec![0u8; dl * (1 + 1 + k + 1)]; let m3 = splice(&m2, cs, &nb);
+                show(&format!("lde {} options fold={} rem={} blowup={}: schedule {:?}, proof with the {} layers implied", lde, f, r_, base.opts[1], sched, k), v(base, m3));
+            }
+        }
     }
     if all || name == "draw-integers" { show("draw_integers(16, 16)", run_d(16, 16)); show("draw_integers(255, 16)", run_d(255, 16)); }
     if all || name == "components" {
